@@ -43,6 +43,19 @@ after stamp + 120 s must not connect. Every call of a keyed server's process_log
 is also replayed into the Lean `Backend.serve` (one server object, the recorded payloads at the recorded instants; theorems:
 admission is history independent, a stale ticket is refused after any history), and the CONNECT payload itself is compared
 with `Backend.connectRequest` of the credentials the plan ends in.
+
+The advertised station answered by a different server: the property's "a ticket for a different server never yields a
+connection" / "the server sees exactly the issued user id" also speak about WHO answers at the station the (protocol-following)
+authentication server advertises. build_station_cases runs full logins in which somebody else listens there while the genuine
+secure server lives at another address: the library's own server without a Kerberos key (acknowledges the CONNECT with an
+empty payload), the library's own server under another key (silent), a keyless server that answers 8 zero bytes / a guessed
+check value / an echo of the request / 4 bytes, and a server that reads the request but answers check+0, check+2, an inverted
+or bit-flipped or byte-swapped check value, a wrong length field, 4 / 7 / 12 bytes, swapped fields or nothing — every variant
+in every version band on every transport with the real and the 0.0.0.1 station, under first-copy datagram loss, and with the
+client's connection check pinned to its boundary values. Oracle: login raises, its `async with` body is never entered
+(obs["entered"]), nobody is admitted by the genuine secure server. Every CONNECT/ACK payload any client endpoint of any single
+run judged (PRUDPClient.check_connection_response: credentials?, connection check, payload, returned / raised) is also replayed
+into the Lean `Backend.checkResponse` (theorem connect_answer_gate: accepted iff the payload is (4, check+1 mod 2^32)).
 """
 import itertools, multiprocessing, os, struct, sys
 from concurrent.futures import ThreadPoolExecutor
@@ -153,12 +166,26 @@ def judge(c, o):
         elif tuple(o["accepts"][0][0]) != exp_addr or o["accepts"][0][1] != sid: why = "connected to %r stream %r, expected %r stream %r" % (o["accepts"][0][0], o["accepts"][0][1], exp_addr, sid)
         elif any(x.startswith("requestTicket") for x in o["calls"]) != (not c["first_for_secure"]): why = "request_ticket issued=%r but first ticket for secure server=%r" % (o["calls"], c["first_for_secure"])
         elif not c["first_for_secure"] and "requestTicket %d %d" % (c["pid"], B.SECURE_PID) not in o["calls"]: why = "request_ticket called with %r" % (o["calls"],)
+    elif kind.startswith("fail:station:"):
+        import struct as _st
+        legit = [r for r in o.get("responses", []) if r["cred"] and r["data"] == _st.pack("<II", 4, (r["check"] + 1) & 0xFFFFFFFF).hex()]
+        if legit: return None          # a keyless server guessed the 32-bit check value (one in 2^32): that answer IS the proof of knowledge
+        who = {"no-key": "a server that holds no Kerberos key (the library's keyless server: empty CONNECT/ACK payload)",
+               "other-key": "a server that holds another Kerberos key"}.get(c["station"], "a server that is not the secure server (answer variant '%s')" % c["station"])
+        answers = sorted({r["data"] or "<empty>" for r in o.get("responses", []) if r["cred"]})
+        tail = "; CONNECT/ACK payloads the client received: %s (its connection check: %s, so the only valid answer was %s); the genuine secure server (elsewhere) admitted %r" % (
+            answers or "none", sorted({"0x%08X" % r["check"] for r in o.get("responses", []) if r["cred"]}) or "?",
+            sorted({_st.pack("<II", 4, (r["check"] + 1) & 0xFFFFFFFF).hex() for r in o.get("responses", []) if r["cred"]}) or "?", o["accepts"])
+        if o.get("entered"):
+            why = "the advertised station is answered by %s, yet login() yielded a connection (client-side pid() = %r, then: %s)%s" % (who, o["client_pid"], o["error"] or "the probe call returned %r" % (o["probe"],), tail)
+        elif o["error"] is None or o["accepts"] or o["handler_pids"]:
+            why = "the advertised station is answered by %s: expected login() to raise and nobody to be admitted, saw error=%r accepts=%r handler pids=%r%s" % (who, o["error"], o["accepts"], o["handler_pids"], tail)
     elif kind == "fail:stale-by-now":
         if o["error"] is None or o["accepts"] or o["handler_pids"]:
             why = "a ticket older than 120 s (at the instant of this login) still produced a connection: error=%r accepts=%r" % (o["error"], o["accepts"])
     else:
-        if o["error"] is None or o["accepts"] or o["handler_pids"]:
-            why = "failure script '%s' still produced a connection: error=%r accepts=%r" % (kind, o["error"], o["accepts"])
+        if o["error"] is None or o["accepts"] or o["handler_pids"] or o.get("entered"):
+            why = "failure script '%s' still produced a connection: error=%r accepts=%r%s" % (kind, o["error"], o["accepts"], ", login() yielded a client" if o.get("entered") else "")
     return why
 
 
@@ -527,13 +554,49 @@ def build_draw_cases(rng, quick, i):
     return cases, i
 
 
+def build_station_cases(rng, quick, i):
+    """full logins through a protocol-following authentication server whose advertised station is answered by a DIFFERENT server
+    (backend_sim.STATION_VARIANTS) while the genuine secure server lives elsewhere"""
+    import backend_sim as B
+    cases = []
+    def case(variant, version, transport, placeholder, **over):
+        nonlocal i
+        i += 1
+        # key derivation 0 costs 65000 MD5 on the Lean side and is orthogonal to who answers the station: one case in six
+        c = base_case(i, version, rng.random() < 0.5, over.pop("kd", rng.choice([0, 1, 1, 1, 1, 1])), rng.choice([16, 32]), rng.choice([0, 1]), rng.choice([4, 8]),
+                      rng.random() < 0.5, placeholder, transport, rng.randbytes(64))
+        c["station"] = variant; c["kind"] = "fail:station:" + variant
+        c.update(over)
+        cases.append(c)
+        return c
+    for _ in range(1 if quick else 3):
+        # every variant x band x transport x real / 0.0.0.1 station
+        for variant, version, transport, placeholder in itertools.product(B.STATION_VARIANTS, BANDS, ["v0", "v1", "lite"], [False, True]):
+            case(variant, version, transport, placeholder)
+        # the band boundaries
+        for variant in B.STATION_VARIANTS:
+            for version in ([rng.choice([0, 39999, 40399, 40401, 50000])] if quick else [0, 39999, 40399, 40401, 50000]):
+                case(variant, version, rng.choice(["v0", "v1", "lite"]), rng.random() < 0.5)
+        # while the first copy of every datagram is lost (the CONNECT is retransmitted and answered again)
+        for variant, transport in itertools.product(B.STATION_VARIANTS, ["v0", "v1"]):
+            c = case(variant, rng.choice(BANDS), transport, rng.random() < 0.5, kd=1)
+            c["loss"] = True
+        # the client's connection check (and the session ids) at the boundaries: check+1 wraps, check+2 wraps, the inverted value is 0 ...
+        for variant in B.STATION_VARIANTS:
+            for v in (rng.sample(DRAW_EDGES["check"], 3) if quick else DRAW_VALUES["check"]):
+                draws = {"check": [v]}
+                if rng.random() < 0.3: draws["session"] = [rng.choice(DRAW_EDGES["session"])]
+                case(variant, rng.choice(BANDS), rng.choice(["v0", "v1", "lite"]), rng.random() < 0.5, draws=draws)
+    return cases, i
+
+
 def run(ctx):
     rng = ctx.rng
     quick = ctx.tier == "quick"
     drv = ctx.driver()
     ctx.rule = ("one case = one end-to-end login in the deterministic simulation (real backend.connect/login, real generated "
                 "Authentication(NX)Server scripted per case, real secure rmc.serve with a key); the 1152-point configuration matrix is exhaustive, "
-                "failure scripts (%d kinds) and first-copy datagram loss run on sub-matrices; full logins with the library's own random draws (connection check, session id, "
+                "failure scripts (%d kinds) and first-copy datagram loss run on sub-matrices; the advertised station answered by a different server (keyless / other key / 16 kinds of wrong CONNECT answer x band x transport x real|0.0.0.1 station, + loss, + pinned connection checks): must raise and never enter the login body; full logins with the library's own random draws (connection check, session id, "
                 "initial unreliable id, ticket key) pinned to boundary values, alone / mixed per endpoint / combined / with loss / under failure scripts; sessions = 2..5 logins through ONE BackEndClient and Settings object "
                 "(all ordered pairs of %d step kinds per band + random longer ones; sequential / earlier connections held / concurrent; 1-2 clients), one case per login; "
                 "timed sessions = 2..9 logins at chosen virtual instants against one long-lived pair of secure servers, the authentication server handing out the byte-identical ticket of a group at ages from 0.5 s over 119.75 / 120.25 s to a day + 5 s "
@@ -583,6 +646,8 @@ def run(ctx):
 
     draw_cases, i = build_draw_cases(rng, quick, i)
     cases += draw_cases
+    station_cases, i = build_station_cases(rng, quick, i)
+    cases += station_cases
 
     sessions = build_sessions(rng, quick, i)
     timed_sessions, _ = build_timed_sessions(rng, quick, sessions[-1]["seed"] if sessions else i)
@@ -605,7 +670,13 @@ def run(ctx):
     lines = lines + [l if l is not None else "session-not-run" for l in session_lines]
     n_plans = len(lines)
     serve_jobs, creq_jobs = serve_lines(sessions, session_outs)
-    lines = lines + [j[0] for j in serve_jobs] + [j[0] for j in creq_jobs]
+    # every verdict of a client endpoint on a CONNECT/ACK payload (single runs) against Lean Backend.checkResponse
+    cack_jobs = {}
+    for c, o in zip(cases, observations):
+        for r in o.get("responses", []):
+            cack_jobs.setdefault(("cack %d %d %s" % (1 if r["cred"] else 0, r["check"], r["data"] or "-"), r.get("result", "none")), (c, r))
+    cack_jobs = sorted(cack_jobs.items(), key=lambda kv: kv[0])
+    lines = lines + [j[0] for j in serve_jobs] + [j[0] for j in creq_jobs] + [k[0] for k, _ in cack_jobs]
     # the Lean side does 65000+ MD5 per old-style derivation: split the batch over a few driver processes
     nchunk = 12
     chunks = [lines[k::nchunk] for k in range(nchunk)]
@@ -616,7 +687,8 @@ def run(ctx):
         outs[k::nchunk] = oc
 
     serve_models = outs[n_plans:n_plans + len(serve_jobs)]
-    creq_models = outs[n_plans + len(serve_jobs):]
+    creq_models = outs[n_plans + len(serve_jobs):n_plans + len(serve_jobs) + len(creq_jobs)]
+    cack_models = outs[n_plans + len(serve_jobs) + len(creq_jobs):]
     session_models = outs[n_single:n_plans]
     outs = outs[:n_single]; lines = lines[:n_single]
     diffs, fails = [], []
@@ -748,6 +820,12 @@ def run(ctx):
     for f in pinned:       # one report per (kinds pinned, transport, what went wrong), the simplest first
         sig = (tuple(sorted(f[0]["draws"])), f[0]["transport"], f[2][:60])
         if sig not in seen_sig: seen_sig.add(sig); pinned_sel.append(f)
+    # one report per (kind, transport) first, so that 25 reports show the variety of what failed
+    seen_kt, first, rest = set(), [], []
+    for f in plain:
+        kt = (f[0]["kind"], f[0]["transport"])
+        (rest if kt in seen_kt else first).append(f); seen_kt.add(kt)
+    plain = first + rest
     for c, o, why in plain[:25] + pinned_sel[:8]:
         key = "backend:%s:v%d:extra=%d:ffs=%d:placeholder=%d" % (c["kind"], c["version"], c["extra"], c["first_for_secure"], c["placeholder"])
         if c.get("draws"):
@@ -757,6 +835,17 @@ def run(ctx):
                 "" if c["kind"].startswith("fail") else "; authentication methods invoked: %s; the secure server admitted: %s" % (
                     [x.split(" ")[0] for x in o["calls"]], ["pid %r" % a[2] for a in o["accepts"]] or "nobody"))
         ctx.violation(key, why, {"case": _jsonable(c), "observed": _jsonable(o), "how": "harness/backend_sim.run_case(case) (./check C17 --replay <this file>); case.draws pins the library's random draws, see backend_sim.apply_draws"})
+    cack_diffs = [(line, real, model, c, r) for ((line, real), (c, r)), model in zip(cack_jobs, cack_models) if model != real]
+    ctx.extra["station_runs"] = len(station_cases)
+    ctx.extra["station_variants"] = len(B.STATION_VARIANTS)
+    ctx.extra["connect_answers_vs_model"] = len(cack_jobs)
+    ctx.extra["connect_answers_refused"] = sum(1 for (line, real), _ in cack_jobs if real != "ok")
+    ctx.extra["connect_answer_diffs"] = len(cack_diffs)
+    if cack_diffs and not ctx.violations and not ctx.known_hits:
+        line, real, model, c, r = cack_diffs[0]
+        ctx.corr_break("backend-connect-answer-correspondence", "the real PRUDPClient.check_connection_response and Lean Backend.checkResponse disagree on %d of %d distinct (credentials, check, payload) triples (first: %r: real %r, model %r)" % (
+                           len(cack_diffs), len(cack_jobs), line, real, model),
+                       {"case": _jsonable(c), "record": r, "model": model, "theorems_no_longer_tied": ["Nx.C17.connect_answer_gate", "Nx.C17.wrong_station_answer_refused", "Nx.C17.admitted_answer_accepted"]})
     if serve_diffs and not ctx.violations and not ctx.known_hits:
         x, server, j, r, m = serve_diffs[0]
         ctx.corr_break("backend-serve-correspondence", "the real PRUDPServerStream.process_login_request and Lean Backend.serve disagree on %d of %d recorded calls (first: server %s, call %d at tick %d: real %r, model %r)" % (
@@ -800,7 +889,8 @@ def replay(ctx, path):
     for k in ("session_key", "source_key"):
         if isinstance(c.get(k), str): c[k] = bytes.fromhex(c[k])
     o = backend_sim.run_case(c)
-    print({f: o.get(f) for f in ("calls", "keys", "attempts", "accepts", "handler_pids", "client_pid", "probe", "error", "error_text", "draws_made")})
+    print({f: o.get(f) for f in ("calls", "keys", "attempts", "accepts", "handler_pids", "client_pid", "probe", "error", "error_text", "draws_made", "entered", "responses", "rogue_answers")})
+    if c.get("station"): print("advertised station answered by:", c["station"], "- login() yielded a connection:", o.get("entered"))
     if c.get("draws"): print("pinned:", describe_draws(c["draws"]))
     if "kind" in c: print("property verdict:", judge(c, o) or "holds")
     return 0
